@@ -74,6 +74,8 @@ pub enum Init {
     AB,
     /// a=X plus an unreferenced blob of content Y in cas/ (a live OrphanStats lists it)
     AOrphan,
+    /// a=X whose blob file was replaced by 3 other bytes (damaged store): only "every call returns" (C15) is checked
+    ADamaged,
 }
 
 #[derive(Clone, Debug, Serialize, Deserialize, PartialEq, Eq, Hash)]
@@ -135,6 +137,10 @@ pub fn template(cfg: &Cfg, init: Init) -> (Image, BTreeMap<String, Vec<u8>>) {
     }
     let mut im = Image::load(&dir);
     util::rm_rf(&dir);
+    if init == Init::ADamaged {
+        let p = format!("cas/{}", ondisk::path_of_hash(&b3(keys::content(keys::C_X))));
+        im.files.insert(p, b"bad".to_vec());
+    }
     if init == Init::AOrphan {
         let y = keys::content(keys::C_Y).to_vec();
         let p = format!("cas/{}", ondisk::path_of_hash(&b3(&y)));
@@ -390,6 +396,15 @@ fn monitor_step(dir: &Path, cas: &Cas<K>, step: usize, found: &mut Vec<(Vec<&'st
 }
 
 pub fn run_one(p: &Program, tmpl: &(Image, BTreeMap<String, Vec<u8>>), prefix: &[usize], verbose: bool, seen_final: &mut std::collections::BTreeSet<String>) -> RunOut {
+    let mut out = run_one_inner(p, tmpl, prefix, verbose, seen_final);
+    if p.init == Init::ADamaged {
+        // the store is damaged on purpose: reads legitimately return wrong bytes; only completion is required
+        out.findings.retain(|f| f.0.contains(&"C15"));
+    }
+    out
+}
+
+fn run_one_inner(p: &Program, tmpl: &(Image, BTreeMap<String, Vec<u8>>), prefix: &[usize], verbose: bool, seen_final: &mut std::collections::BTreeSet<String>) -> RunOut {
     let dir = util::fresh_dir("sch");
     let qdir = util::fresh_dir("schq");
     tmpl.0.materialize(&dir);
@@ -731,6 +746,10 @@ pub fn programs(tier: &str) -> Vec<(Program, Option<usize>)> {
             }
         }
     }
+    // a damaged store (blob length differs from the index): readers against writers must still all return
+    for (a, b) in [(TOp::Get { k: 0 }, w(0, C_Y)), (TOp::GetReader { k: 0 }, TOp::Remove { k: 0 }), (TOp::GetRange { k: 0 }, w(1, C_X)), (TOp::Get { k: 0 }, TOp::Checkpoint)] {
+        v.push((Program { cfg: big, init: Init::ADamaged, threads: vec![vec![a], vec![b]], vis: 0 }, None));
+    }
     // transactions on the same key / same content with staging/ calls visible (C13: "a concurrent transaction on the same key is unaffected")
     for (a, b) in [(w(0, C_X), w(0, C_Y)), (w(0, C_X), TOp::Abort { k: 0, c: C_Y }), (TOp::Abort { k: 0, c: C_Y }, TOp::Abort { k: 0, c: C_Y }), (w(0, C_Y), w(1, C_Y))] {
         v.push((Program { cfg: big, init: Init::A, threads: vec![vec![a], vec![b]], vis: 1 }, if tier == "quick" { Some(3) } else { Some(5) }));
@@ -775,6 +794,7 @@ fn relevant(p: &Program, prop: &str) -> bool {
         // snapshots taken concurrently with writers: explicit checkpoints and rollover checkpoints (N=1)
         "C20" | "C02" => writers >= 1 && (ops.iter().any(|o| matches!(o, TOp::Checkpoint)) || p.cfg.n == 1),
         "C08" => ops.iter().any(|o| o.is_cleanup()),
+        _ if p.init == Init::ADamaged => prop == "C15",
         "C07" => ops.iter().all(|o| !o.is_read()) && writers >= 1 && (p.init == Init::AB || p.cfg.n == 1 || p.threads.len() > 2),
         "C06" => writers >= 1 && ops.iter().all(|o| matches!(o, TOp::Put { .. } | TOp::Remove { .. } | TOp::RemoveRangeAll | TOp::GetReader { .. } | TOp::Abort { .. })) && p.init != Init::Empty,
         _ => true,
